@@ -3,7 +3,7 @@ per-utility zone sums are aligned (ACC)."""
 from ..core.model import Program
 from ..core.report import CheckContext
 from ..core.resolve import Resolver
-from ..rules import bookkeeping as bk
+from ..rules import bookkeeping as bk, inval
 from .common import run_control, generic_rules
 
 
@@ -17,6 +17,7 @@ def analyse(ctx: CheckContext, p: Program):
     ctx.guard(bk.check_wrap, ctx, p, r, _funcs(p, ("OpenPinch.analysis.utility_targeting", "OpenPinch.analysis.gcc_manipulation",
                                         "OpenPinch.analysis.indirect_integration_entry", "OpenPinch.analysis.direct_integration_entry")))
     ctx.guard(bk.check_assignment_booking, ctx, p, r)
+    ctx.guard(inval.check_between_pinches, ctx, p, r)
     ctx.guard(bk.check_zone_sum, ctx, p, r)
     ctx.guard(bk.check_default_filter, ctx, p, r)
     ctx.guard(bk.check_zero_seeded_utilities, ctx, p, r)
